@@ -168,6 +168,21 @@ def expanding_rules(prog, rep, E):
         rets = [e for e in p.events if e.kind == "return"]
         inloop = bool(rets and rets[-1].loops)
         conds = [c for c in p.conds if c.atom[0] != "loop0"]
+        rv = strip_epochs(p.exit[1])
+        if rv[0] == "call" and rv[1] == ("g", "any") and len(rv[2]) == 1 and not rv[3] and not conds:
+            # any(<sub-filter>.check_alt(hashes) for <sub-filter> in self._blooms): True iff some sub-filter reports the key
+            g = rv[2][0]
+            okany = g[0] == "comp" and g[1] in ("gen", "list") and len(g[3]) == 1 and not g[3][0][3] and g[3][0][2] == blooms
+            if okany:
+                a = g[2]
+                okany = a[0] == "ret" and a[1].endswith("BloomFilter.check_alt") and a[3][0][0] == "it" and a[3][0][1] == g[3][0][1] \
+                    and a[3][0][2] == blooms and a[3][1:] == (("p", "hashes"),)
+            if not okany:
+                rep.bad("C01.expanding-scan-all", where, f"returns {nshow(rv)}",
+                        f"check_alt returns {nshow(rv)}; expected any(sub-filter.check_alt(hashes)) over the whole sub-filter list", chk.where(p.exit[2]))
+                return
+            seen_true = True
+            continue
         for c in conds:
             a = strip_epochs(c.atom)
             if not (a[0] == "ret" and a[1].endswith("BloomFilter.check_alt") and a[3][0][0] == "it" and a[3][0][2] == blooms
